@@ -270,7 +270,13 @@ func oneRun(res *core.Result, pool *idPool, r *rand.Rand, rc runCfg, choices []i
 	steps := 0
 	const maxSteps = 300000
 	var orderHash uint64 = 1469598103934665603
-	for ms.Pending() > 0 && steps < maxSteps {
+	for steps < maxSteps {
+		if ms.Pending() == 0 {
+			ms.Settle() // forwarding that a handler left to a goroutine of its own
+			if ms.Pending() == 0 {
+				break
+			}
+		}
 		n := ms.Pending()
 		idx := 0
 		switch {
